@@ -10,7 +10,7 @@ use std::time::Duration;
 use futures::future::BoxFuture;
 use futures::FutureExt;
 use ractor::concurrency::OneshotReceiver;
-use ractor::factory::queues::DefaultQueue;
+use ractor::factory::queues::{DefaultQueue, PriorityManager, PriorityQueue, Queue, StandardPriority};
 use ractor::factory::routing::{CustomHashFunction, CustomRouting, KeyPersistentRouting, QueuerRouting, RoundRobinRouting, Router, StickyQueuerRouting};
 use ractor::factory::*;
 use ractor::{Actor, ActorCell, ActorProcessingErr, ActorRef, ActorStatus};
@@ -216,6 +216,29 @@ pub enum Discard {
     Oldest(usize),
 }
 
+#[derive(Clone, Copy, Debug, PartialEq, Eq)]
+pub enum QueueKind {
+    Default,
+    /// PriorityQueue: key b's jobs overtake key a's jobs in the queue; everything is discardable
+    Priority,
+    /// as above, and key b's jobs are not discardable
+    PriorityKeep,
+}
+
+/// key 1 ("b") is urgent, key 0 ("a") is best effort
+struct Prio {
+    keep_b: bool,
+}
+impl PriorityManager<Key, StandardPriority> for Prio {
+    fn is_discardable(&self, k: &Key) -> bool {
+        !(self.keep_b && *k == 1)
+    }
+    fn get_priority(&self, k: &Key) -> Option<StandardPriority> {
+        Some(if *k == 1 { StandardPriority::Highest } else { StandardPriority::BestEffort })
+    }
+}
+type PQ = PriorityQueue<Key, JobMsg, StandardPriority, Prio, 5>;
+
 #[derive(Clone, Copy, Debug)]
 pub struct Cfg {
     pub routing: Routing,
@@ -229,11 +252,22 @@ pub struct Cfg {
     /// the script may issue a request (dispatch / resize / drain) right behind the previous event, without
     /// letting the system settle in between
     pub burst: bool,
+    pub queue: QueueKind,
 }
 
 impl Cfg {
     pub fn name(&self) -> String {
-        format!("{:?}/{:?}/w{}/d{}{}{}", self.routing, self.discard, self.workers, self.depth, if self.ttl { "/ttl" } else { "" }, if self.lean { "/lean" } else { "" }).replace("/lean", if self.burst { "/lean+burst" } else { "/lean" }).replace(['(', ')'], "")
+        let q = match self.queue {
+            QueueKind::Default => "",
+            QueueKind::Priority => "/prio",
+            QueueKind::PriorityKeep => "/prio-keep",
+        };
+        let mode = match (self.lean, self.burst) {
+            (true, true) => "/lean+burst",
+            (true, false) => "/lean",
+            _ => "",
+        };
+        format!("{:?}/{:?}/w{}/d{}{}{mode}{q}", self.routing, self.discard, self.workers, self.depth, if self.ttl { "/ttl" } else { "" }).replace(['(', ')'], "")
     }
     pub fn factory_queueing(&self) -> bool {
         matches!(self.routing, Routing::Sticky | Routing::Queuer)
@@ -262,6 +296,14 @@ impl CustomHashFunction<Key> for HashMax {
 pub type FRef = ActorRef<FactoryMessage<Key, JobMsg>>;
 
 async fn spawn_factory<R: Router<Key, JobMsg>>(router: R, cfg: Cfg, world: &World) -> (FRef, ractor::concurrency::JoinHandle<()>) {
+    match cfg.queue {
+        QueueKind::Default => spawn_factory_q(router, DefaultQueue::<Key, JobMsg>::default(), cfg, world).await,
+        QueueKind::Priority => spawn_factory_q(router, PQ::new(Prio { keep_b: false }), cfg, world).await,
+        QueueKind::PriorityKeep => spawn_factory_q(router, PQ::new(Prio { keep_b: true }), cfg, world).await,
+    }
+}
+
+async fn spawn_factory_q<R: Router<Key, JobMsg>, Q: Queue<Key, JobMsg>>(router: R, queue: Q, cfg: Cfg, world: &World) -> (FRef, ractor::concurrency::JoinHandle<()>) {
     let discard_settings = match cfg.discard {
         Discard::None => DiscardSettings::None,
         Discard::Newest(l) => DiscardSettings::Static { limit: l, mode: DiscardMode::Newest },
@@ -271,13 +313,13 @@ async fn spawn_factory<R: Router<Key, JobMsg>>(router: R, cfg: Cfg, world: &Worl
         .worker_builder(Box::new(Builder(world.clone())))
         .num_initial_workers(cfg.workers)
         .router(router)
-        .queue(DefaultQueue::<Key, JobMsg>::default())
+        .queue(queue)
         .discard_handler(Arc::new(Discards(world.clone())))
         .discard_settings(discard_settings)
         .lifecycle_hooks(Box::new(Hooks(world.clone())))
         .stats(Arc::new(Stats(world.clone())))
         .build();
-    let f = Factory::<Key, JobMsg, (), TW, R, DefaultQueue<Key, JobMsg>>::default();
+    let f = Factory::<Key, JobMsg, (), TW, R, Q>::default();
     Actor::spawn(None, f, args).await.expect("factory")
 }
 
@@ -644,7 +686,7 @@ pub fn plan(property: &'static str, tier: &str) -> Plan {
                 (true, true) => 6,
                 (true, false) => 5,
             };
-            cfgs.push((Cfg { routing: r, discard: *d, workers: 2, depth, ttl: false, lean: false, burst: false }, if raced || (thorough && main4) { 1 } else { 0 }));
+            cfgs.push((Cfg { routing: r, discard: *d, workers: 2, depth, ttl: false, lean: false, burst: false, queue: QueueKind::Default }, if raced || (thorough && main4) { 1 } else { 0 }));
         }
     }
     // deeper histories over the reduced alphabet (one kind of death, no kill), default schedule: multi-step
@@ -658,20 +700,30 @@ pub fn plan(property: &'static str, tier: &str) -> Plan {
                 continue;
             }
         }
-        cfgs.push((Cfg { routing: r, discard: Discard::None, workers: 2, depth: if thorough { 7 } else { 5 }, ttl: false, lean: true, burst: false }, 0));
+        cfgs.push((Cfg { routing: r, discard: Discard::None, workers: 2, depth: if thorough { 7 } else { 5 }, ttl: false, lean: true, burst: false, queue: QueueKind::Default }, 0));
     }
     // bursts: requests that sit in the factory's mailbox together (a resize right behind a resize, a
     // dispatch right behind a drain request, ...), so the factory handles the second before the workers
     // reacted to the first
     for r in [Routing::Queuer, Routing::KeyPersistent, Routing::Sticky, Routing::RoundRobin] {
-        cfgs.push((Cfg { routing: r, discard: Discard::None, workers: 2, depth: if thorough { 5 } else { 4 }, ttl: false, lean: true, burst: true }, 0));
+        cfgs.push((Cfg { routing: r, discard: Discard::None, workers: 2, depth: if thorough { 5 } else { 4 }, ttl: false, lean: true, burst: true, queue: QueueKind::Default }, 0));
         if property == "C15" {
-            cfgs.push((Cfg { routing: r, discard: Discard::Newest(1), workers: 2, depth: if thorough { 4 } else { 3 }, ttl: false, lean: true, burst: true }, 0));
+            cfgs.push((Cfg { routing: r, discard: Discard::Newest(1), workers: 2, depth: if thorough { 4 } else { 3 }, ttl: false, lean: true, burst: true, queue: QueueKind::Default }, 0));
+        }
+    }
+    // the priority queue (factory-queued routing only: worker queues are plain FIFOs): urgent key b
+    // overtakes best-effort key a; with and without non-discardable jobs
+    for r in [Routing::Queuer, Routing::Sticky] {
+        for (q, d) in [(QueueKind::Priority, Discard::None), (QueueKind::Priority, Discard::Oldest(1)), (QueueKind::PriorityKeep, Discard::Newest(1)), (QueueKind::PriorityKeep, Discard::Oldest(1))] {
+            if property != "C15" && d != Discard::None && !thorough {
+                continue;
+            }
+            cfgs.push((Cfg { routing: r, discard: d, workers: 1, depth: if thorough { 6 } else { 4 }, ttl: false, lean: true, burst: false, queue: q }, 0));
         }
     }
     // TTL expiry with time advancing
     for r in [Routing::Queuer, Routing::KeyPersistent] {
-        cfgs.push((Cfg { routing: r, discard: Discard::None, workers: 1, depth: if thorough { 5 } else { 4 }, ttl: true, lean: false, burst: false }, 0));
+        cfgs.push((Cfg { routing: r, discard: Discard::None, workers: 1, depth: if thorough { 5 } else { 4 }, ttl: true, lean: false, burst: false, queue: QueueKind::Default }, 0));
     }
     let mut units = Vec::new();
     for (cfg, bound) in cfgs {
@@ -692,7 +744,7 @@ pub fn plan(property: &'static str, tier: &str) -> Plan {
         rule: "every event history up to the stated depth over {dispatch(key a|b), complete(w), die(w: panic | Err | kill | kill right after Finished), resize(1|2|3), drain, advance} (only enabled events; enumerated exhaustively as free choices; in the burst units a request may also follow its predecessor without the system settling in between) on a real Factory with gate-controlled real workers, for each routing mode x discard setting; the system runs to quiescence between events and the schedules of those runs are explored within the deviation bound (bound 1 permutes Finished / supervision events / dispatches); oracle: per-job fate ledger and routing monitors computed from the workers', discard handler's, stats layer's and lifecycle hooks' logs; non-trivial = execution with >= 1 branching decision; distinct = distinct (history, schedule) vectors".into(),
         assumptions: vec![
             "task granularity; zero-cost computation on the virtual clock".into(),
-            "2 initial workers (resizable to 1..3), 2 keys, default queue".into(),
+            "2 initial workers (resizable to 1..3), 2 keys; default queue, and the 5-level priority queue (key b urgent, optionally not discardable) for factory-queued routing".into(),
         ],
         engine: "vsched (shuttle coroutines + exhaustive history enumeration x deviation-bounded schedule DFS) on the real ractor code; leaky bucket: exhaustive enumeration of operation sequences against a counter model",
     }
